@@ -1344,6 +1344,30 @@ mut("C17", "alias-lookup-none-skips-counter", "R17-5|shell::expand_alias|scan-co
         buff.push((idx, value.clone()));
 """))
 
+mut("C04", "first-input-redirection-wins", "R04-8|types::Command::from_tokens|input-search-direction",
+    "the `<` operand is searched from the back",
+    (T, """            if let Some(idx) = tokens_new.iter().position(|x| x.0.is_empty() && x.1 == "<") {""",
+     """            if let Some(idx) = tokens_new.iter().rposition(|x| x.0.is_empty() && x.1 == "<") {"""))
+mut("C07", "bg-status-test-before-sigcont", "R07-6|builtins::bg::run|sigcont-before-any-return",
+    "bg answers `already in background` before sending SIGCONT",
+    ("src/builtins/bg.rs", """                unsafe {
+                    libc::killpg(job.gid, libc::SIGCONT);
+                    gid = job.gid;
+                    if job.status == "Running" {
+                        let info = format!("cicada: bg: job {} already in background", job.id);
+                        print_stderr_with_capture(&info, &mut cr, cl, cmd, capture);
+                        return cr;
+                    }
+                }""", """                gid = job.gid;
+                if job.status == "Running" {
+                    let info = format!("cicada: bg: job {} already in background", job.id);
+                    print_stderr_with_capture(&info, &mut cr, cl, cmd, capture);
+                    return cr;
+                }
+                unsafe {
+                    libc::killpg(gid, libc::SIGCONT);
+                }"""))
+
 # ------------------------------------------------------------------ more refactors
 ref("history-params-vec", ["C18"], "bind the INSERT parameters through a params! style slice",
     (H, "    match conn.execute(&sql, [line.trim(), info.as_str()]) {",
